@@ -407,7 +407,7 @@ func (k *c18State) expiredSuccs(l c18Loop) (blocks []*ssa.BasicBlock) {
 func (k *c18State) deadAt(at ssa.Instruction, l c18Loop, depth int) (bool, []ssa.Instruction) {
 	fn := at.Parent()
 	if fn == l.next.Parent() {
-		ok := eng.GuardedBy(at, func(r eng.Rel) bool {
+		ok := eng.HoldsAt(at, func(r eng.Rel) bool {
 			exp, rec := k.expiry(r, l)
 			return rec && exp
 		})
@@ -611,7 +611,7 @@ func (k *c18State) deadSet(mm *ssa.MakeMap) (bool, string) {
 		}
 		n++
 		why := ""
-		ok = eng.GuardedBy(u, func(r eng.Rel) bool {
+		ok = eng.HoldsAt(u, func(r eng.Rel) bool {
 			good, w := k.notLive(r, func(key ssa.Value) bool { return c18SameValue(key, u.Key) })
 			if w != "" {
 				why = w
@@ -914,35 +914,72 @@ func c18Sinks(k *c18State) (del, dis []c18Site) {
 				if len(a) != 2 {
 					continue
 				}
-				baseN, pN := c18FieldChain(a[1])
-				baseU, pU := c18FieldChain(a[0])
+				// the function that chooses the operands: Delete's own, or — when the call was moved
+				// into a helper that receives the (upstream, name) pair and the store as parameters —
+				// the helper's single caller (the guards of both levels count)
+				site, sfn := ssa.Instruction(ci), fn
+				a0, a1, store := a[0], a[1], eng.Receiver(ci)
+				guards := eng.GuardsOf(ci)
+				for up := 0; up < 2; up++ {
+					_, pN := c18FieldChain(a1)
+					_, pU := c18FieldChain(a0)
+					if len(pN) > 0 && len(pU) > 0 {
+						break
+					}
+					sites := eng.Current.LiftSites(sfn)
+					if len(sites) != 1 {
+						break
+					}
+					cs, isCall := sites[0].(*ssa.Call)
+					if !isCall {
+						break
+					}
+					bind := func(v ssa.Value) ssa.Value {
+						if p, isP := v.(*ssa.Parameter); isP && p.Parent() == sfn {
+							if i := c18ParamIndex(p); i >= 0 && i < len(cs.Call.Args) {
+								return cs.Call.Args[i]
+							}
+						}
+						return v
+					}
+					a0, a1, store = bind(a0), bind(a1), bind(store)
+					site, sfn = cs, cs.Parent()
+					guards = append(guards, eng.GuardsOf(cs)...)
+				}
+				baseN, pN := c18FieldChain(a1)
+				baseU, pU := c18FieldChain(a0)
 				okArgs := c18PathIs(pN, "ObjectMeta", "Name") && c18PathIs(pU, "Spec", "UpstreamCluster") && c18SameObject(baseN, baseU) && eng.TypeName(baseN.Type()) == c18Cond
-				c.Check("R1", fn, "Delete(condition.Spec.UpstreamCluster, condition.Name) of one condition", ci.Pos(), okArgs,
+				c.Check("R1", sfn, "Delete(condition.Spec.UpstreamCluster, condition.Name) of one condition", ci.Pos(), okArgs,
 					"the store entry removed must be the condition's own (upstream, name) pair; otherwise the dead instance's quota stays allocated or another record is removed")
 				if !okArgs {
 					continue
 				}
 				// guards: only leadership and a non-empty instance may keep a condition
+				// every dominating branch is accounted for; a branch on a named flag or on a short-circuit
+				// value (`deletable := false; if leader { if len(inst) != 0 { deletable = true } }; if deletable`)
+				// stands for the conditions under which the flag is set (eng.GuardLeaves)
 				extra := ""
 				nonEmpty := false
-				for _, g := range eng.GuardsOf(ci) {
-					r := g.Rel()
-					if e, rec := c18InstanceEmpty(r, baseN); rec {
-						if !e {
-							nonEmpty = true
-						}
-						continue
-					}
-					if x, truth, ok := c18BoolRel(r); ok && truth {
-						if call, _ := x.(*ssa.Call); call != nil && eng.MethodNameIs(call, "IsLeader") {
+				for _, g := range guards {
+					leaves, _ := eng.GuardLeaves(g)
+					for _, r := range leaves {
+						if e, rec := c18InstanceEmpty(r, baseN); rec {
+							if !e {
+								nonEmpty = true
+							}
 							continue
 						}
+						if x, truth, ok := c18BoolRel(r); ok && truth {
+							if call, _ := x.(*ssa.Call); call != nil && eng.MethodNameIs(call, "IsLeader") {
+								continue
+							}
+						}
+						extra = "the deletion is skipped under a condition other than lost leadership or an empty instance"
 					}
-					extra = "the deletion is skipped under a condition other than lost leadership or an empty instance"
 				}
-				c.Check("R1", fn, "condition removal is unconditional for a dead instance", ci.Pos(), extra == "", strings.TrimSuffix("only `not leader of the shard` and `empty instance` may keep a condition handed to the removal; "+extra, "; "))
-				c.Check("R2", fn, "records without an instance are never deleted", ci.Pos(), nonEmpty, "Delete must be control-dependent on len(condition.Spec.Instance) > 0: the <upstream>.state record has no instance and must survive every cleanup")
-				del = append(del, k.lift(c18Site{ci, fn, eng.Receiver(ci), baseN, ""}, 0)...)
+				c.Check("R1", sfn, "condition removal is unconditional for a dead instance", ci.Pos(), extra == "", strings.TrimSuffix("only `not leader of the shard` and `empty instance` may keep a condition handed to the removal; "+extra, "; "))
+				c.Check("R2", sfn, "records without an instance are never deleted", ci.Pos(), nonEmpty, "Delete must be control-dependent on len(condition.Spec.Instance) > 0: the <upstream>.state record has no instance and must survive every cleanup")
+				del = append(del, k.lift(c18Site{site.(ssa.CallInstruction), sfn, store, baseN, ""}, 0)...)
 			}
 		}
 	}
@@ -1448,7 +1485,13 @@ func c18SweepAll(k *c18State, fn *ssa.Function, isInst func(ssa.Value) bool, ele
 			return eng.Receiver(ci) != ssa.Value(c06Outermost(fn).Params[0])
 		}
 		if eng.IsCall(ci, "(*sync.Map).Range") {
-			mc, _ := eng.Args(ci)[0].(*ssa.MakeClosure)
+			// the callback: a function literal written in place, or one bound to a local that is
+			// assigned once (`forget := func(k, v interface{}) bool {…}; m.Range(forget)`)
+			cbv := eng.Args(ci)[0]
+			if a, isAlias := c13Alias(cbv); isAlias && a != nil {
+				cbv = a
+			}
+			mc, _ := cbv.(*ssa.MakeClosure)
 			if mc == nil {
 				return false
 			}
@@ -1542,15 +1585,22 @@ func c18NegativeState(k *c18State) {
 		}
 		tn := eng.TypeName(named)
 		inst, cur := fn.Params[1], fn.Params[3]
+		// SetState together with the helpers (all callers known) its body may have been spread
+		// over; inside a helper the instance / the count are the parameters bound to them
+		region := c.W.Region(fn)
+		isInst := func(v ssa.Value) bool { return v == ssa.Value(inst) || c08Up(v) == ssa.Value(inst) }
+		isCur := func(v ssa.Value) bool { return v == ssa.Value(cur) || c08Up(v) == ssa.Value(cur) }
 		// the per-instance table: a map field of the receiver updated under the instance parameter
 		field := ""
-		eng.Instrs(fn, func(ins ssa.Instruction) {
-			if u, ok := ins.(*ssa.MapUpdate); ok && u.Key == ssa.Value(inst) {
-				if f, own := c06FieldLoadOfType(u.Map, tn); own {
-					field = f
+		for _, rf := range region {
+			eng.Instrs(rf, func(ins ssa.Instruction) {
+				if u, ok := ins.(*ssa.MapUpdate); ok && isInst(u.Key) {
+					if f, own := c06FieldLoadOfType(u.Map, tn); own {
+						field = f
+					}
 				}
-			}
-		})
+			})
+		}
 		if field == "" {
 			c.Note("C18.R1: %s keeps no per-instance state in SetState (nothing to reclaim)", shortName(tn))
 			continue
@@ -1560,7 +1610,8 @@ func c18NegativeState(k *c18State) {
 		// the `current < 0` edge
 		var edges []*ssa.BasicBlock
 		negRel := func(r eng.Rel) (neg, rec bool) {
-			if r.X != ssa.Value(cur) {
+			r = eng.NormRel(r)
+			if !isCur(r.X) {
 				return false, false
 			}
 			z, isK := eng.IntConst(r.Y)
@@ -1590,9 +1641,42 @@ func c18NegativeState(k *c18State) {
 			c.Fail("R1", fn, "negative count ⇒ instance entry removed", fn.Pos(), "SetState has no `current < 0` edge: DeleteInstanceState cannot remove an instance")
 			continue
 		}
-		isDelete := func(i ssa.Instruction) bool {
-			ci, ok := i.(*ssa.Call)
-			return ok && c18IsBuiltin(ci, "delete") && isTbl(ci.Call.Args[0]) && ci.Call.Args[1] == ssa.Value(inst)
+		inRegion := map[*ssa.Function]bool{}
+		for _, rf := range region {
+			inRegion[rf] = true
+		}
+		// isFound: v is the comma-ok of a lookup of the instance in the table — read in place, or
+		// handed out unchanged by an accessor of the package (`state, ok := f.entry(instance)`)
+		var isFound func(v ssa.Value, depth int) bool
+		isFound = func(v ssa.Value, depth int) bool {
+			e, ok := v.(*ssa.Extract)
+			if !ok {
+				return false
+			}
+			if lk, isLk := e.Tuple.(*ssa.Lookup); isLk {
+				return e.Index == 1 && lk.CommaOk && isTbl(lk.X) && isInst(lk.Index)
+			}
+			call, isCall := e.Tuple.(*ssa.Call)
+			if !isCall || depth <= 0 {
+				return false
+			}
+			g := eng.CalleeFn(call)
+			if g == nil || g.Blocks == nil || !inRegion[g] {
+				return false
+			}
+			all, n := true, 0
+			eng.Instrs(g, func(i ssa.Instruction) {
+				ret, isRet := i.(*ssa.Return)
+				if !isRet || ret.Block() == g.Recover {
+					return
+				}
+				n++
+				res := eng.ReturnResults(ret)
+				if e.Index >= len(res) || !isFound(res[e.Index], depth-1) {
+					all = false
+				}
+			})
+			return all && n > 0
 		}
 		// "not found" edges: the comma-ok of a lookup of the instance in the table is false
 		notFound := func(from *ssa.BasicBlock, si int) bool {
@@ -1604,22 +1688,67 @@ func c18NegativeState(k *c18State) {
 			if !isB || truth {
 				return false
 			}
-			e, ok := x.(*ssa.Extract)
-			if !ok || e.Index != 1 {
+			return isFound(x, 2)
+		}
+		// a removal step: the delete itself, or a call of a helper of the region every path through
+		// which (except its own "not found" edges) performs one
+		var isDelete func(i ssa.Instruction) bool
+		alwaysDeletes := map[*ssa.Function]int{}
+		isDelete = func(i ssa.Instruction) bool {
+			ci, ok := i.(*ssa.Call)
+			if !ok {
 				return false
 			}
-			lk, ok := e.Tuple.(*ssa.Lookup)
-			return ok && lk.CommaOk && isTbl(lk.X) && lk.Index == ssa.Value(inst)
+			if c18IsBuiltin(ci, "delete") {
+				return isTbl(ci.Call.Args[0]) && isInst(ci.Call.Args[1])
+			}
+			g := eng.CalleeFn(ci)
+			if g == nil || !inRegion[g] || g == fn || len(g.Blocks) == 0 {
+				return false
+			}
+			switch alwaysDeletes[g] {
+			case 1:
+				return false
+			case 2:
+				return true
+			}
+			alwaysDeletes[g] = 1 // in progress / no
+			if c18AlwaysFromBlock(g.Blocks[0], nil, isDelete, notFound) {
+				alwaysDeletes[g] = 2
+				return true
+			}
+			return false
+		}
+		// a (re)creation: an update of the table, written in place or inside a called function of the package
+		var creates func(g *ssa.Function, depth int) bool
+		isCreate := func(i ssa.Instruction, depth int) bool {
+			if u, ok := i.(*ssa.MapUpdate); ok {
+				return isTbl(u.Map)
+			}
+			if ci, ok := i.(*ssa.Call); ok && depth > 0 {
+				if g := eng.CalleeFn(ci); g != nil && g.Blocks != nil && g.Pkg == fn.Pkg && g != fn {
+					return creates(g, depth-1)
+				}
+			}
+			return false
+		}
+		creates = func(g *ssa.Function, depth int) bool {
+			found := false
+			for _, f := range eng.WithClosures(g) {
+				eng.Instrs(f, func(i ssa.Instruction) {
+					if isCreate(i, depth) {
+						found = true
+					}
+				})
+			}
+			return found
 		}
 		removed, recreated, subtracted := true, false, false
 		for _, e := range edges {
 			if !c18AlwaysFromBlock(e, nil, isDelete, notFound) {
 				removed = false
 			}
-			if eng.ReachFromBlock(e, eng.PathQuery{Target: func(i ssa.Instruction) bool {
-				u, ok := i.(*ssa.MapUpdate)
-				return ok && isTbl(u.Map)
-			}}) != nil {
+			if eng.ReachFromBlock(e, eng.PathQuery{Target: func(i ssa.Instruction) bool { return isCreate(i, 3) }}) != nil {
 				recreated = true
 			}
 		}
@@ -1627,25 +1756,27 @@ func c18NegativeState(k *c18State) {
 			"on the `current < 0` edge the instance's entry must be deleted whenever it exists and must never be (re)created; otherwise the dead instance stays in the table")
 		// its count is subtracted from the total: a call, guarded by current < 0, one of whose
 		// arguments is the negation of a value read from the looked-up entry
-		eng.Instrs(fn, func(ins ssa.Instruction) {
-			ci, ok := ins.(*ssa.Call)
-			if !ok {
-				return
-			}
-			for _, a := range ci.Call.Args {
-				u, ok := a.(*ssa.UnOp)
-				if !ok || u.Op != token.SUB {
-					continue
+		for _, rf := range region {
+			eng.Instrs(rf, func(ins ssa.Instruction) {
+				ci, ok := ins.(*ssa.Call)
+				if !ok {
+					return
 				}
-				fromEntry := k.sa.DerivesFrom(u.X, func(x ssa.Value) bool {
-					lk, ok := x.(*ssa.Lookup)
-					return ok && isTbl(lk.X) && lk.Index == ssa.Value(inst)
-				})
-				if fromEntry && eng.GuardedBy(ci, func(r eng.Rel) bool { neg, rec := negRel(r); return rec && neg }) {
-					subtracted = true
+				for _, a := range ci.Call.Args {
+					u, ok := a.(*ssa.UnOp)
+					if !ok || u.Op != token.SUB {
+						continue
+					}
+					fromEntry := k.sa.DerivesFrom(u.X, func(x ssa.Value) bool {
+						lk, ok := x.(*ssa.Lookup)
+						return ok && isTbl(lk.X) && isInst(lk.Index)
+					})
+					if fromEntry && eng.HoldsAt(ci, func(r eng.Rel) bool { neg, rec := negRel(r); return rec && neg }) {
+						subtracted = true
+					}
 				}
-			}
-		})
+			})
+		}
 		c.Check("R1", fn, "negative count ⇒ instance's count subtracted from the total", fn.Pos(), subtracted,
 			"removing an instance must give its counted requests back to the global total (add(-state.count)); otherwise the capacity of the dead instance is lost forever")
 	}
